@@ -491,7 +491,15 @@ func (e *c16Env) tokens(ops []c16Op) []c16Tok {
 
 // c16Canon sorts every maximal run of tokens of one unordered group (map-iteration / listing order in the code).
 func c16Canon(toks []c16Tok) []c16Tok {
-	out := append([]c16Tok(nil), toks...)
+	// the counter write that precedes each CRL of a phase depends on the order in which the runtime walks the issuers:
+	// it is left out of canonical (order-free) traces; interrupted and concurrent executions report it
+	var out []c16Tok
+	for i, t := range toks {
+		if strings.HasPrefix(t.s, "K[") && i+1 < len(toks) && (toks[i+1].group == 1 || toks[i+1].group == 2) {
+			continue
+		}
+		out = append(out, t)
+	}
 	i := 0
 	for i < len(out) {
 		g := out[i].group
